@@ -29,6 +29,10 @@ pub struct BbCase {
 	/// the CA forgets the account before the second run
 	#[serde(default)]
 	pub forget: bool,
+	/// a daemon start with this account key type between the two runs, during which no renewal is due
+	/// (the key is changed twice before the endpoint is synchronised)
+	#[serde(default)]
+	pub key_mid: Option<String>,
 }
 
 fn bb_strategy() -> impl Strategy<Value = BbCase> {
@@ -47,10 +51,12 @@ fn bb_strategy() -> impl Strategy<Value = BbCase> {
 		any::<bool>(),
 		proptest::collection::vec((pos, 1usize..=2, proptest::sample::select(vec!["unauthorized", "rejectedIdentifier", "badCSR", "orderNotReady", "caa", "userActionRequired", "accountDoesNotExist", "serverInternal", "malformed"]).prop_map(|s| s.to_string())), 0..=2),
 		prop_oneof![3 => Just(false), 1 => Just(true)],
+		proptest::option::weighted(0.3, gen::key_type_strategy()),
 	)
-		.prop_map(|(key1, key2, change_contacts, restart, eab, badnonce, nonce_on_get, errors, forget)| {
+		.prop_map(|(key1, key2, change_contacts, restart, eab, badnonce, nonce_on_get, errors, forget, key_mid)| {
 			let key2 = key2.filter(|k| *k != key1);
-			BbCase { key1, key2, change_contacts, restart, eab, badnonce, nonce_on_get, errors, forget }
+			let key_mid = key_mid.filter(|k| *k != key1 && Some(k) != key2.as_ref());
+			BbCase { key1, key2, change_contacts, restart, eab, badnonce, nonce_on_get, errors, forget, key_mid }
 		})
 }
 
@@ -84,7 +90,6 @@ fn exec_bb_in(case: &BbCase, acmed: &std::path::Path, dir: &std::path::Path) -> 
 	let plan = CaPlan {
 		faults,
 		nonce_on_get: case.nonce_on_get,
-		not_after_s: 86400,
 		eab: case.eab.as_ref().map(|(alg, key, kid)| Eab { kid: kid.clone(), key: key.clone(), alg: alg.clone() }),
 		..CaPlan::default()
 	};
@@ -107,7 +112,7 @@ fn exec_bb_in(case: &BbCase, acmed: &std::path::Path, dir: &std::path::Path) -> 
 				"identifiers": [{"dns": "j.jws.test", "challenge": "http-01"}]}],
 		})
 	};
-	let second_run = case.key2.is_some() || case.change_contacts || case.restart || case.forget;
+	let second_run = case.key2.is_some() || case.change_contacts || case.restart || case.forget || case.key_mid.is_some();
 	let runs: Vec<(String, Vec<&str>)> = if second_run {
 		vec![
 			(case.key1.clone(), vec!["first@jws.test"]),
@@ -118,6 +123,24 @@ fn exec_bb_in(case: &BbCase, acmed: &std::path::Path, dir: &std::path::Path) -> 
 	};
 	let mut posts_seen = 0;
 	for (ri, (kt, contacts)) in runs.iter().enumerate() {
+		if ri == 1 {
+			if let Some(km) = &case.key_mid {
+				// a start during which nothing is due: the certificate of run 1 is valid for 90 days
+				let cfg_path = bb::write_config(dir, "acmed.toml", &mk_cfg(km, &runs[0].1));
+				let mut d = match Daemon::spawn(&bb::daemon_opts(acmed, dir, &cfg_path, "mid")) {
+					Ok(d) => d,
+					Err(e) => return Outcome::Infra(e),
+				};
+				let t0 = std::time::Instant::now();
+				while !d.stderr_text().contains("checking for renewal") && t0.elapsed() < Duration::from_secs(20) && d.state() == crate::daemon::ProcState::Alive {
+					std::thread::sleep(Duration::from_millis(20));
+				}
+				std::thread::sleep(Duration::from_millis(60));
+				d.kill();
+			}
+			// the second run renews: the certificate file is removed
+			let _ = std::fs::remove_file(lay.certs.join("c1_ecdsa-p256.crt.pem"));
+		}
 		let cfg_path = bb::write_config(dir, "acmed.toml", &mk_cfg(kt, contacts));
 		let mut daemon = match Daemon::spawn(&bb::daemon_opts(acmed, dir, &cfg_path, &format!("run{ri}"))) {
 			Ok(d) => d,
@@ -197,6 +220,9 @@ fn exec_bb_in(case: &BbCase, acmed: &std::path::Path, dir: &std::path::Path) -> 
 	}
 	if case.forget {
 		classes.push("ca-forgot-account".into());
+	}
+	if case.key_mid.is_some() && second_run {
+		classes.push("two-key-changes-before-sync".into());
 	}
 	let n_posts = snap.log.iter().filter(|l| l.method == "POST").count();
 	classes.push(format!("posts~{}", n_posts / 10 * 10));
@@ -345,7 +371,7 @@ fn exec_pr(case: &PrCase) -> Outcome {
 }
 
 pub fn run(ctx: &Ctx, rep: &mut Report) {
-	rep.rule = "bb: message flows of the real daemon (account key of any of 7 types; first registration + issuance; then optionally an edited configuration: key type change = roll-over between any two types, contact change, plain restart; external account binding HS256/384/512; spurious badNonce answers at random positions and run lengths; 0..2 one-shot error answers of other ACME types, each delivered with a fresh nonce; the CA forgetting the account between the runs; CA with/without nonces on GET) against the strict mock CA, which checks every POST: flattened JWS shape, header members, alg vs key on record, url == request URL, nonce issued by this server and unused, jwk only for newAccount / inside key-change, kid otherwise, signature under the key on record (OpenSSL + ring, fixed-width R||S), payload shape, inner key-change JWS and EAB JWS. Any strict event is a violation; every run must succeed and the CA's key must follow the configuration. Non-trivial = history with a badNonce retry, a roll-over or EAB. pr: batches of JWS produced by the daemon's builders in the probe over random payloads/URLs/nonces/kids with a fresh key per JWS (and random MAC keys), each decoded and verified by the harness; non-trivial = an ECDSA signature whose r or s starts with a zero octet (or a MAC case).".into();
+	rep.rule = "bb: message flows of the real daemon (account key of any of 7 types; first registration + issuance; then optionally an edited configuration: key type change = roll-over between any two types (optionally two changes in a row with a start in between during which no renewal is due), contact change, plain restart; external account binding HS256/384/512; spurious badNonce answers at random positions and run lengths; 0..2 one-shot error answers of other ACME types, each delivered with a fresh nonce; the CA forgetting the account between the runs; CA with/without nonces on GET) against the strict mock CA, which checks every POST: flattened JWS shape, header members, alg vs key on record, url == request URL, nonce issued by this server and unused, jwk only for newAccount / inside key-change, kid otherwise, signature under the key on record (OpenSSL + ring, fixed-width R||S), payload shape, inner key-change JWS and EAB JWS. Any strict event is a violation; every run must succeed and the CA's key must follow the configuration. Non-trivial = history with a badNonce retry, a roll-over or EAB. pr: batches of JWS produced by the daemon's builders in the probe over random payloads/URLs/nonces/kids with a fresh key per JWS (and random MAC keys), each decoded and verified by the harness; non-trivial = an ECDSA signature whose r or s starts with a zero octet (or a MAC case).".into();
 	rep.assume("nonce freshness is judged on histories in which every response is delivered (badNonce and other error answers carry a fresh nonce); dropped connections and nonce-less answers are not injected here");
 	run_replays::<BbCase>(ctx, rep, "bb", &exec_bb);
 	run_replays::<PrCase>(ctx, rep, "pr", &exec_pr);
